@@ -109,6 +109,8 @@ def three_d(ctx, k, K):
     axes = [('+z', np.array([0, 0, 1.0])), ('g', alph.unit((1, 2, 3))), ('g2', alph.unit((-2, 1, 0.5))), ('nd', alph.unit((1, 1e-8, 0)))]
     i = 0
     for (sn0, R0), (an, th), (xn, ax) in itertools.product(starts3(tier), rel_angles(tier, seed), axes):
+        if sn0.startswith('Rz(pi') and xn in ('g2', 'nd') and tier == 'quick':
+            continue
         i += 1
         if i % K != k:
             continue
@@ -136,6 +138,13 @@ def three_d(ctx, k, K):
                 entries.append(('UnitQuaternion.interp/short=%d/sign=%d' % (sh, sg),
                                 lambda s, sh=sh, sg=sg: ref.q2r(sm.UnitQuaternion(q0.copy()).interp(s, dest=sm.UnitQuaternion(sg * q1, norm=False, check=False), shortest=sh).vec),
                                 'UnitQuaternion.interp', sh))
+                if sh and sg == -1:
+                    # the request spelt as a NumPy boolean (what `q0.inner(q1) < 0` gives) or as 1
+                    for fn_, fv in (('npbool', np.bool_(True)), ('one', 1)):
+                        entries.append(('slerp/short=%s/sign=%d' % (fn_, sg), lambda s, fv=fv, sg=sg: ref.q2r(b.slerp(q0.copy(), sg * q1, s, shortest=fv)), 'base.slerp', True))
+                        entries.append(('UnitQuaternion.interp/short=%s/sign=%d' % (fn_, sg),
+                                        lambda s, fv=fv, sg=sg: ref.q2r(sm.UnitQuaternion(q0.copy()).interp(s, dest=sm.UnitQuaternion(sg * q1, norm=False, check=False), shortest=fv).vec),
+                                        'UnitQuaternion.interp', True))
         for en, f, site, sh in entries:
             results = []
             P = dict(P0, entry=en.split('/')[0], shortest=int(sh))
@@ -442,7 +451,7 @@ def integer_cases(ctx):
 
 
 def shards(tier, seed):
-    K = 12 if tier == 'quick' else 48
+    K = 32 if tier == 'quick' else 48
     return [('3d', k, K) for k in range(K)] + [('2d',), ('int',)]
 
 
